@@ -98,7 +98,7 @@ def judge_gen(rep, gen_path, obs_path, direction, stats, samples):
                 samples.append({"text": g["text"], "env": compact_env(g["env"]),
                                 "allowed": [show_out(a) for a in g["allowed"]], "observed": show_out(o)})
             if admits(g["allowed"], o, shell):
-                if o["t"] == "e" and not shell:
+                if o["t"] == "e" and not shell and any(a["t"] == "e" for a in g["allowed"]):
                     cls = sorted({a["c"] for a in g["allowed"] if a["t"] == "e"})
                     k = "/".join(cls) + " -> " + o["c"]
                     stats["error_classes"][k] = stats["error_classes"].get(k, 0) + 1
